@@ -476,6 +476,7 @@ func c09ReusedInputs(c *core.Ctx, r *core.Rand) {
 		s, cr  int
 	}
 	var held []heldT
+	var recvBuf []byte
 	good := [][2]int{{7, 4}, {7, 0}, {1, 0}, {0, 0}, {2, 4}, {3, 0}}
 	bad := [][2]int{{8, 4}, {7, 5}, {7, 6}, {7, 7}, {11, 4}, {11, 0}, {8, 0}, {4, 0}, {5, 4}, {6, 0}}
 	for step := 0; step < 8; step++ {
@@ -531,6 +532,36 @@ func c09ReusedInputs(c *core.Ctx, r *core.Rand) {
 				if kac != nil {
 					held = append(held, heldT{kac, router, site, s, cr})
 					c.Bucket("reused-inputs/identity-returned")
+				}
+			}
+		}
+		// ... and identities READ from one receive buffer that the caller refills with the next
+		// encoding (same key sizes, other declared types - every second one prohibited)
+		if recvBuf == nil {
+			recvBuf = make([]byte, 391)
+		}
+		{
+			k.Cert = rm.KeyCert(s, cr, nil)
+			enc := k.Encode()
+			if len(enc) == len(recvBuf) {
+				copy(recvBuf, enc)
+				var kac *keys_and_cert.KeysAndCert
+				rsite := "destination.ReadDestination"
+				c.Call("c09/reused-inputs/read", enc, func() {
+					if router {
+						rsite = "router_identity.ReadRouterIdentity"
+						if ri, _, err := router_identity.ReadRouterIdentity(recvBuf); err == nil && ri != nil {
+							kac = ri.KeysAndCert
+						}
+						return
+					}
+					if d, _, err := destination.ReadDestination(recvBuf); err == nil {
+						kac = d.KeysAndCert
+					}
+				})
+				if kac != nil {
+					held = append(held, heldT{kac, router, rsite + " (receive buffer reused)", s, cr})
+					c.Bucket("reused-inputs/identity-read")
 				}
 			}
 		}
